@@ -226,9 +226,14 @@ func c08Check(src string, cfg Cfg) (kind, detail string, nseg int, accepted bool
 	return "", "", len(segs), true
 }
 
-var c08Other = func() *ast.Program {
-	o := parseMode("b = a + x;\nlet z = [b, a]", Mode{})
-	return o.Prog
+// programs the reused compiler has compiled before: one ending on its last token, one ending in a line break,
+// blank lines and a comment (what is left pending at the end of a compilation must not reach the next one)
+var c08Other = func() []*ast.Program {
+	var ps []*ast.Program
+	for _, s := range []string{"b = a + x;\nlet z = [b, a]", "if (a) {\n  b = 1\n}\n\n\n// tail\n", "x = `t\n`;\n"} {
+		ps = append(ps, parseMode(s, Mode{}).Prog)
+	}
+	return ps
 }()
 
 func c08Reuse(prog *ast.Program, cfg Cfg, first CompOut) (kind, detail string) {
@@ -238,7 +243,9 @@ func c08Reuse(prog *ast.Program, cfg Cfg, first CompOut) (kind, detail string) {
 		}
 	}()
 	k := cfg.Build()
-	_ = k.Compile(c08Other)
+	for _, other := range c08Other {
+		_ = k.Compile(other)
+	}
 	r := k.Compile(prog)
 	if r.Code != first.Code {
 		return "reused-compiler-code", fmt.Sprintf("a compiler that compiled another program before emits %q, a fresh one %q", r.Code, first.Code)
@@ -432,7 +439,7 @@ func c08Replay(pl json.RawMessage) (string, []core.Violation) {
 func init() {
 	core.Register(&core.PropSpec{
 		ID: "C08", Level: "exploration",
-		Rule:     "every accepted program of the universes (ALL token sequences <= n, n=4 quick / 5 thorough, in space and LF layouts; the statement families in every layout with <= k deviations over gaps {LF, none, comment, blank line, LF+indent, tab} and dropped semicolons; every expression chain <= depth 2 on one line and one token per line; multi-line, re-quoted and non-ASCII literals followed by more tokens) is compiled with a source map in compact mode and in 4 (quick) / all 21 (thorough) pretty option sets; the mappings are decoded by the independent decoder; for EVERY segment the independent tokenizer must find a token starting exactly at the generated position in Code and one starting exactly at the source position in the source, of the same kind and lexeme (string/template literals: same kind); segments are ordered by generated position; a segment at an identifier carries that identifier as name, every identifier token of Code is covered by such a segment, name indices are in range and names unique. A column is accepted if it is right in UTF-16 units or in bytes. non-trivial = maps of multi-line sources Added: generated code is split into lines as the source-map builder is specified to (LF, CRLF, lone CR); CRLF and CRLF+comment gaps; 8 program prefixes (blank lines, comments, CRLF before the first statement); compiler reuse (a compiler that compiled another program before must emit the same code, mappings and names); the scale family (long lines: three-digit VLQ deltas; hundreds of names and lines).",
+		Rule:     "every accepted program of the universes (ALL token sequences <= n, n=4 quick / 5 thorough, in space and LF layouts; the statement families in every layout with <= k deviations over gaps {LF, none, comment, blank line, LF+indent, tab} and dropped semicolons; every expression chain <= depth 2 on one line and one token per line; multi-line, re-quoted and non-ASCII literals followed by more tokens) is compiled with a source map in compact mode and in 4 (quick) / all 21 (thorough) pretty option sets; the mappings are decoded by the independent decoder; for EVERY segment the independent tokenizer must find a token starting exactly at the generated position in Code and one starting exactly at the source position in the source, of the same kind and lexeme (string/template literals: same kind); segments are ordered by generated position; a segment at an identifier carries that identifier as name, every identifier token of Code is covered by such a segment, name indices are in range and names unique. A column is accepted if it is right in UTF-16 units or in bytes. non-trivial = maps of multi-line sources Added: generated code is split into lines as the source-map builder is specified to (LF, CRLF, lone CR); CRLF and CRLF+comment gaps; 8 program prefixes (blank lines, comments, CRLF before the first statement); compiler reuse (a compiler that compiled three other programs before - one of them ending in blank lines and a comment - must emit the same code, mappings and names); the scale family (long lines: three-digit VLQ deltas; hundreds of names and lines).",
 		Assume:   []string{"columns: UTF-16 code units or bytes are both accepted (identical for ASCII)", "string literals are compared by kind only (quote style and escaping may change)"},
 		QuickSec: 300, ThorSec: 2400, Run: c08Run, Replay: c08Replay,
 		Evals: "maps_checked", Nontriv: "maps_of_multiline_sources",
